@@ -180,38 +180,71 @@ def fold_ok(f_):
 
 
 def rule_sources(chk, tree):
-    icls = interp_class(tree)
-    fn = M.find_func(icls, '_compile_acceleration_eval')
-    nd = [a for a in ast.walk(fn) if isinstance(a, ast.Assign) and compact(a.targets[0]) == 'names']
-    ok = bool(nd) and compact(nd[0].value) == '[x.nameforxinself.particle_arrays]'
-    chk.decide(ok, 'all-arrays-are-sources', 'names', node=nd[0] if nd else fn, file=INT, func='_compile_acceleration_eval',
-               detail_bad='the source list is %s, not the names of all particle arrays' % (U(nd[0].value) if nd else None), detail_ok='all particle array names')
-    n = 0
-    from verif_static import norm as N_
-    M.set_parents(fn)
-    ldefs = N_.local_defs([fn])
-    NAMES = '[x.nameforxinself.particle_arrays]'
+    """Interpolator._compile_acceleration_eval interpreted (E8) for every method on three model source arrays: the evaluator is built over the arrays handed in, with the
+    method's own equation (dest 'interpolate', every source array a source); order1 with a density summation for every source array over all of them (ghosts included)
+    followed by the two approximation steps; user equations are passed through untouched"""
+    from verif_static import emit as EM, absint as AI
+    raw = M.find_class(tree, 'Interpolator')
+    fn = M.find_func(raw, '_compile_acceleration_eval')
+    methods = None
+    for a_ in raw.body:
+        if isinstance(a_, ast.Assign) and compact(a_.targets[0]) == 'METHODS':
+            methods = [M.const_str(e) for e in a_.value.elts]
+    if not methods:
+        raise AnalysisError('Interpolator.METHODS vanished')
+    NAMES = ['fluid', 'wall', 'inlet']
+    bad, und, nrun = None, None, 0
 
-    def res(e):
-        return compact(N_.inline(e, ldefs))
-    for c in M.calls(fn):
-        nm = M.call_name(c) or ''
-        if nm in EQ_OF.values() or nm in ('SPHFirstOrderApproximationPreStep', 'SummationDensity'):
-            kwv = dict((k.arg, k.value) for k in c.keywords)
-            kw = dict((k, res(v)) for k, v in kwv.items())
-            n += 1
-            if nm == 'SummationDensity':
-                # one per source array: built in a comprehension / loop over the names, dest = the loop variable
-                comp_ = M.enclosing(c, (ast.ListComp, ast.GeneratorExp, ast.For))
-                it_ = comp_.generators[0] if isinstance(comp_, (ast.ListComp, ast.GeneratorExp)) else comp_
-                ok = kw.get('sources') == NAMES and comp_ is not None and res(it_.iter) == NAMES and isinstance(kwv.get('dest'), ast.Name) and compact(it_.target) == kwv['dest'].id
-                want = "dest=name (each source array), sources=names"
+    def desc(x):
+        if isinstance(x, AI.Inst):
+            kw = dict(x.kwargs)
+            for k_, v_ in zip(('dest', 'sources'), x.args):
+                kw.setdefault(k_, v_)
+            if x.cls.node.name == 'Group':
+                return ('Group', [desc(e) for e in (kw.get('equations') or [])], kw.get('real', True))
+            return (x.cls.node.name, kw.get('dest'), list(kw.get('sources')) if isinstance(kw.get('sources'), (list, tuple)) else kw.get('sources'), kw.get('dim'))
+        return x
+    try:
+        for m_ in methods + ['<user equations>']:
+            it = EM.interpreter()
+            pas = [EM.mock(name=n_) for n_ in NAMES]
+            user = [EM.mock(name='UserEq')] if m_ == '<user equations>' else None
+            obj = EM.instance(it, INT, 'Interpolator', method=methods[0] if user else m_, particle_arrays=pas, equations=user, dim=2, kernel='K', METHODS=list(methods))
+            arrays = pas + [EM.mock(name='interpolate')]
+            try:
+                EM.call(it, obj, '_compile_acceleration_eval', arrays)
+            except AI.Unsupported as ex:
+                und = 'method %s: %s' % (m_, ex)
+                break
+            nrun += 1
+            fe = obj.attrs.get('func_eval')
+            if not (isinstance(fe, AI.Inst) and fe.cls.node.name == 'AccelerationEval' and len(fe.args) >= 3):
+                bad = bad or (m_, 'self.func_eval is %r' % (fe,))
+                continue
+            if fe.args[0] is not arrays and list(fe.args[0]) != arrays:
+                bad = bad or (m_, 'the evaluator is built over %s, not over the arrays handed in' % ([getattr(x, 'attrs', {}).get('name') for x in fe.args[0]],))
+            got = [desc(e) for e in fe.args[1]] if isinstance(fe.args[1], (list, tuple)) else fe.args[1]
+            if user:
+                want = user
+                if fe.args[1] is not user and bad is None:
+                    bad = (m_, 'user equations are replaced by %s' % (got,))
+                continue
+            if m_ == 'order1':
+                want = [('Group', [('SummationDensity', n_, NAMES, None) for n_ in NAMES], False),
+                        ('Group', [('SPHFirstOrderApproximationPreStep', 'interpolate', NAMES, 2)], True), ('Group', [('SPHFirstOrderApproximation', 'interpolate', NAMES, 2)], True)]
             else:
-                ok = kw.get('sources') == NAMES and kw.get('dest') == "'interpolate'"
-                want = "dest='interpolate', sources=names"
-            chk.decide(ok, 'all-arrays-are-sources', nm, node=c, file=INT, func='_compile_acceleration_eval',
-                       detail_bad='%s(%s): expected %s - an array left out of the sources does not contribute to the interpolation' % (nm, kw, want), detail_ok=want)
-    chk.floor('default equation constructions', n, 7)
+                want = [(EQ_OF[m_], 'interpolate', NAMES, None)]
+            if got != want and bad is None:
+                bad = (m_, 'the equations are %s, expected %s' % (got, want))
+    except AI.Raised as ex:
+        bad = bad or ('?', 'raises %s' % ex)
+    if und:
+        chk.undecided('all-arrays-are-sources', 'equations:model-run', node=fn, file=INT, func='_compile_acceleration_eval', detail='not interpretable on the model: ' + und)
+    else:
+        chk.decide(bad is None, 'all-arrays-are-sources', 'equations:model-run', node=fn, file=INT, func='_compile_acceleration_eval',
+                   detail_bad='method %s with source arrays fluid, wall, inlet: %s - an array left out of the sources does not contribute to the interpolation' % (bad or ('', '')),
+                   detail_ok='%d runs: every method builds its own equation over all source arrays; user equations pass through' % nrun)
+    chk.floor('model runs of _compile_acceleration_eval', nrun, 6)
     # (the target array itself - name, coordinates, h, properties per method - is decided by the model run rule_target_model)
 
 
@@ -346,7 +379,7 @@ def rule_method_table(chk, tree):
                 for s in M.str_consts(c):
                     out.add(s)
         return out
-    for fname in ('_compile_acceleration_eval', 'interpolate'):
+    for fname in ('interpolate',):
         fn = M.find_func(icls, fname)
         got = mentioned(fn)
         has_else = True
@@ -355,13 +388,7 @@ def rule_method_table(chk, tree):
         chk.decide(got <= set(methods) and rest <= {'order1'}, 'method-table', fname, node=fn, file=INT, func=fname,
                    detail_bad='methods tested %s vs METHODS %s (unhandled %s fall into the order1 branch)' % (sorted(got), methods, sorted(rest - {'order1'})),
                    detail_ok='%s explicit, order1 by default' % sorted(got))
-    fn = M.find_func(icls, '_compile_acceleration_eval')
-    for i in ast.walk(fn):
-        if isinstance(i, ast.If) and isinstance(i.test, ast.Compare) and compact(i.test.left) == 'self.method' and M.const_str(i.test.comparators[0]):
-            m = M.const_str(i.test.comparators[0])
-            built = [M.call_name(c) for b in i.body for c in M.calls(b) if M.call_name(c) in EQ_OF.values()]
-            chk.decide(built == [EQ_OF.get(m)], 'method-table', 'equation-of:' + m, node=i, file=INT, func='_compile_acceleration_eval',
-                       detail_bad='method %r builds %s, expected %s' % (m, built, EQ_OF.get(m)), detail_ok=EQ_OF.get(m))
+    # (which equation a method builds: rule_sources, by model run)
     init = M.find_func(icls, '__init__')
     ok = any(isinstance(i, ast.If) and compact(i.test) == 'methodnotinself.METHODS' and any(isinstance(b, ast.Raise) for b in i.body) for i in ast.walk(init))
     chk.decide(ok, 'method-table', 'unknown-method-raises', node=init, file=INT, func='Interpolator.__init__', detail_bad='unknown method accepted', detail_ok='raises')
